@@ -40,7 +40,7 @@ ASSUMPTIONS = [
 ]
 REQUIRED_COUNTERS = {"schedules": 2000, "preempted_multi_session": 500, "cases": 30, "free_runs": 60, "free_line_events": 5000}
 SHARDS = {"quick": 16, "thorough": 16}
-SHARD_WATCHDOG = {"quick": 900, "thorough": 7200}
+SHARD_WATCHDOG = {"quick": 1500, "thorough": 10800}
 
 SHAPES = [s for n in (1, 2, 3) for s in itertools.product((1, 2, 3), repeat=n)]  # 39
 
